@@ -32,6 +32,18 @@ fn check<D: Dataset + MutableDataset + Default>(name: &str, qs: &[Q]) {
     let want1 = trip(&mut set.iter().filter(|q| q.0 == 1).map(|q| (q.0, q.1, q.2)));
     let got1 = trip(&mut d.union_graph().triples_matching([t(1)], Any, Any).map(|x| { let x = x.unwrap(); (num(&x.s()), num(&x.p()), num(&x.o())) }));
     if got1 != want1 { fail("union_graph().triples_matching([1],Any,Any)", qs, format!("{} got {:?} want {:?}", name, got1, want1)); }
+    // projections of the union graph are those of its triples (graph names are not terms of the union graph)
+    {
+        let want_iris: BTreeSet<u8> = set.iter().flat_map(|q| [q.0, q.1, q.2]).collect();
+        let got_iris: BTreeSet<u8> = d.union_graph().iris().map(|x| num(&x.unwrap())).collect();
+        if got_iris != want_iris { fail("union_graph().iris()", qs, format!("{} got {:?} want {:?}", name, got_iris, want_iris)); }
+        let want_s: BTreeSet<u8> = set.iter().map(|q| q.0).collect();
+        let got_s: BTreeSet<u8> = d.union_graph().subjects().map(|x| num(&x.unwrap())).collect();
+        if got_s != want_s { fail("union_graph().subjects()", qs, format!("{} got {:?} want {:?}", name, got_s, want_s)); }
+        let want_o: BTreeSet<u8> = set.iter().map(|q| q.2).collect();
+        let got_o: BTreeSet<u8> = d.union_graph().objects().map(|x| num(&x.unwrap())).collect();
+        if got_o != want_o { fail("union_graph().objects()", qs, format!("{} got {:?} want {:?}", name, got_o, want_o)); }
+    }
     for gi in 0..3u8 {
         let want = trip(&mut set.iter().filter(|q| q.3 == gi).map(|q| (q.0, q.1, q.2)));
         let got = trip(&mut DatasetGraph::new(&d, g(gi)).triples().map(|x| { let x = x.unwrap(); (num(&x.s()), num(&x.p()), num(&x.o())) }));
@@ -80,8 +92,46 @@ fn check_graph_as_dataset() {
     }
 }
 
+/// term enumerations of the graph-as-dataset view == those computed from its quads (atoms, through quoted triples)
+fn check_graph_as_dataset_enumerations() {
+    use sophia_api::dataset::adapter::GraphAsDataset;
+    use sophia_api::term::TermKind;
+    fn lit(x: &str) -> T { SimpleTerm::LiteralDatatype(x.to_string().into(), IriRef::new_unchecked("x:dt".into())) }
+    fn bn(x: &str) -> T { SimpleTerm::BlankNode(sophia_api::term::BnodeId::new_unchecked(x.to_string().into())) }
+    fn qt(s: T, p: T, o: T) -> T { SimpleTerm::Triple(Box::new([s, p, o])) }
+    fn atoms(x: &T, out: &mut Vec<T>) { if let SimpleTerm::Triple(b) = x { for y in b.iter() { atoms(y, out) } } else { out.push(x.clone()) } }
+    let shapes: Vec<(&str, Vec<[T; 3]>)> = vec![
+        ("plain", vec![[t(1), t(2), lit("a")], [bn("b"), t(2), t(3)]]),
+        ("literal nested in a quoted subject", vec![[qt(t(1), t(2), lit("n")), t(2), t(3)]]),
+        ("literal / bnode nested in a quoted object", vec![[t(1), t(2), qt(bn("c"), t(2), lit("m"))]]),
+        ("generalized: literal subject, bnode predicate", vec![[lit("g"), bn("p"), t(3)]]),
+    ];
+    for (name, g) in shapes {
+        let mut all = vec![];
+        for tr in &g { for x in tr { atoms(x, &mut all) } }
+        let v = GraphAsDataset::new(&g);
+        let want = |k: TermKind| -> BTreeSet<String> { all.iter().filter(|x| x.kind() == k).map(|x| format!("{:?}", x)).collect() };
+        let checks: Vec<(&str, BTreeSet<String>, BTreeSet<String>)> = vec![
+            ("literals()", v.literals().map(|x| format!("{:?}", x.unwrap().into_term::<T>())).collect(), want(TermKind::Literal)),
+            ("iris()", v.iris().map(|x| format!("{:?}", x.unwrap().into_term::<T>())).collect(), want(TermKind::Iri)),
+            ("blank_nodes()", v.blank_nodes().map(|x| format!("{:?}", x.unwrap().into_term::<T>())).collect(), want(TermKind::BlankNode)),
+            ("subjects()", v.subjects().map(|x| format!("{:?}", x.unwrap().into_term::<T>())).collect(), g.iter().map(|tr| format!("{:?}", tr[0])).collect()),
+            ("predicates()", v.predicates().map(|x| format!("{:?}", x.unwrap().into_term::<T>())).collect(), g.iter().map(|tr| format!("{:?}", tr[1])).collect()),
+            ("objects()", v.objects().map(|x| format!("{:?}", x.unwrap().into_term::<T>())).collect(), g.iter().map(|tr| format!("{:?}", tr[2])).collect()),
+        ];
+        for (what, got, want) in checks {
+            if got != want {
+                println!("{{\"mismatch\":\"GraphAsDataset::{} differs from the terms of its quads\",\"graph\":{:?},\"detail\":{:?}}}", what, name, format!("got {:?} want {:?}", got, want));
+                std::process::exit(1);
+            }
+        }
+        if v.graph_names().next().is_some() { println!("{{\"mismatch\":\"GraphAsDataset::graph_names() not empty\",\"graph\":{:?}}}", name); std::process::exit(1); }
+    }
+}
+
 fn main() {
     check_graph_as_dataset();
+    check_graph_as_dataset_enumerations();
     let mut all: Vec<Q> = vec![];
     for s in [1u8, 2] { for o in [1u8, 2] { for gi in 0..3u8 { all.push((s, 1, o, gi)); } } }
     let mut n = 0u64;
